@@ -164,6 +164,10 @@ def generate(rng, tier):
             s = rng.choice(['spot', 'o/n', 'tn', 'SN', '1x', 'b', '-b', 'jan', ''])      # not a period: dt() goes to the date parser (C04)
         yield dict(tag='dt-today', lines=[line('dtrel', today, s)])
     # --- text the tokenizer must reject or treat specially
+    # '+0b' / '-0b' / '+0B' (and a '+' in front of any count) from a weekend day and a weekday: both roll forward to Monday (review t3 §C09 gap)
+    for t in (D(2020, 2, 29), D(2020, 3, 1), D(2020, 3, 2), D(2020, 2, 29, 23, 59, 59, 999999)):
+        for s in ('+0b', '-0b', '+0B', '-00b', '+1b', '+01B', '+0d', '-0m'):
+            yield dict(tag='signed-zero', lines=[line('bump', t, s)])
     for s in ['', '1x', '5', 'b', '-b', '1d2', '1d 2d', '--1d', '1.5d', 'd1', '1dd', '3b-', '+-1d', '1e', '2 b']:
         yield dict(tag='malformed', lines=[line('bump', D(2020, 2, 28), s)])
     # --- leftover text after the last token.  (a) junk that no time-zone name can be (pytz names are letters, digits, / _ - +): the
@@ -175,7 +179,9 @@ def generate(rng, tier):
         s = ''.join(tok(rand_n(rng), rng.choice(FIXED + 'b'), rng) for _ in range(rng.choice([1, 2])))
         junk = rng.choice(['#', '!', '?', ',', ' ', '1d,', '#utc', ' utc', ' est', '(', '1', '2 d', '@london', '1d!', '.']) + rng.choice(['', '', 'x', '1d'])
         yield dict(tag='leftover-junk', lines=[line('bump', t, s + junk)])
-    for z in ['utc', 'UTC', 'est', 'EST', 'london', 'London', 'gmt', 'Europe/London', 'new york', 'DE', 'cet', 'tokyo', 'xyz', 'q', 'zz']:
+    # unit TYPOS are in this class too: '1min' is '1m' + zone 'in' (Asia/Kolkata): one month later, tz-aware, time of day changed (review t3 §C09)
+    for z in ['utc', 'UTC', 'est', 'EST', 'london', 'London', 'gmt', 'Europe/London', 'new york', 'DE', 'cet', 'tokyo', 'xyz', 'q', 'zz',
+              'in', 'IN', 'fr', 'jp', 'us', 'ay', 'on']:
         t = rand_day(rng) + rand_tod(rng)
         yield dict(tag='tz-suffix', lines=[line('bump', t, tok(rand_n(rng), rng.choice('dbh'), rng) + z)])
     # --- range ends
